@@ -21,7 +21,7 @@ import gen
 import vplib
 from vplib import Verdict, log, outcome, outcome_class, lines_of, first_diff
 
-CORPUS_DIRS = ["/repo/tests/data", "/repo/examples"]
+CORPUS_DIRS = [vplib.REPO + "/tests/data", vplib.REPO + "/examples"]
 
 
 def corpus_files() -> List[str]:
